@@ -168,7 +168,13 @@ def make_limit_case(seed):
         over['1040_s1.educator_expenses'] = str(rng.pick([500, 500.01, 501, 2000]))
     else:
         who = 'you'
-        over[f'8889:{who}.hsa_contributions'] = str(rng.pick([20000.5, 50000]))
+        h = lim['hsa_contribution']
+        fam = rng.chance(0.4)
+        over[f'8889:{who}.hdhp_plan_family'] = 'yes' if fam else 'no'
+        emp = rng.pick([0, 0, 1000, 2000.5])
+        over[f'8889:{who}.employer_contribution'] = str(emp)
+        room = max(0.0, h['limit']['family' if fam else 'self'] - emp)
+        over[f'8889:{who}.hsa_contributions'] = str(round(room + rng.pick([-100, 0, 0.01, 1, 500, 20000]), 2))
     return {'persona': p, 'file': [], 'prompt': True, 'refuse_at': None, 'layout': None,
             'sched': [rng.randrange(1 << 32), rng.pick([0, 1, 3])], 'faults': [kind], 'limit': kind}
 
@@ -200,11 +206,16 @@ def limit_exceeded(case, run):
             out.append(('limit-schedule-b-rows', f'more than {mx} payers'))
     if lim['educator_expenses']['reader_line'] in attempted and num(lim['educator_expenses']['input']) > lim['educator_expenses']['cap']:
         out.append(('limit-educator-expenses', f'educator expenses {num(lim["educator_expenses"]["input"])} > {lim["educator_expenses"]["cap"]}'))
-    for a in attempted:
-        if a.endswith(lim['hsa_contribution']['reader_line_suffix']) and a.startswith('8889'):
-            q = a.split('.')[0] + lim['hsa_contribution']['input_suffix']
-            if num(q) > lim['hsa_contribution']['surely_above']:
-                out.append(('limit-hsa-contribution', f'{q} = {num(q)}'))
+    h = lim['hsa_contribution']
+    for a in sorted(attempted):
+        if a.endswith(h['reader_line_suffix']) and a.startswith('8889'):
+            inst = a.split('.')[0]
+            own = num(inst + h['input_suffix'])
+            emp = num(inst + h['employer_suffix'])
+            fam = texts.get(inst + h['family_suffix'], 'no').strip().lower() in ('yes', 'y', 'true', '1', 'on')
+            room = max(0.0, h['limit']['family' if fam else 'self'] - emp)
+            if own > room:
+                out.append(('limit-hsa-contribution', f'{inst}: own contributions {own} > limit {h["limit"]["family" if fam else "self"]} - employer {emp}'))
     return out
 
 
